@@ -13,6 +13,10 @@ Worlds  : ("g", 2-D) and ("g", 3-D): generic, well conditioned operands from mc.
           ("h", d): the state additionally owns ONE live homogeneous-family operand that is composed, re-parametrised
           through its public API (set_target / from_vector_inplace / compose_*_inplace) and composed again
           (see HELD_SCHEDULES) - the only way to see anything remembered on an object between calls.
+Scale   : worlds "s:..." re-express the generic payloads at other magnitudes (x 2**-20, 2**-30, 2**20, common offset
+          2**20, 20 000 probe points) and add operands that are nearly but not exactly the identity (1e-6, 1e-9) or
+          nearly the inverse of the state; a twin program on the unscaled payload gives the scale-equivariance clause
+          (same class structure, conjugated matrix).  Every tolerance is relative to the data (see assumptions()).
 Refused : calls the tree legitimately refuses (operand of the other dimensionality, non-transform operand, in-place
           operand outside composes_inplace_with) are letters too: they must raise, raise again when retried, leave
           receiver / argument / bystanders unchanged, and the composes that follow on the same live objects obey
@@ -152,6 +156,127 @@ HELD_VAR, DONOR_VAR, REFUSE_VAR = 20, 40, 50
 REFUSE_DIM_REDUCED = ("same", "Affine")
 NON_TRANSFORMS = ("ndarray", "None")
 PARTNERS = ("cur", "same", "Affine")
+
+
+# SCALE worlds ("s:..."): the same generic payloads re-expressed at other magnitudes and the operands that are
+# nearly - but not - the identity.  Homogeneous-family letters only (TPS has a documented absolute floor
+# min_singular_val, PWA a fixed domain: see assumptions()).
+#   s:near   operands that differ from the identity by ~1e-6 / ~1e-9 (relative; far above rounding), probes at
+#            three magnitudes, and a dynamic letter that is nearly the inverse of the state (result ~ identity)
+#   s:1e-6, s:1e-9, s:1e6   every length of the payload (translations, sources, targets, probe points) multiplied
+#            by 2**-20, 2**-30, 2**20 (powers of two: scaling is exact in binary floating point); a twin program on
+#            the unscaled payload runs alongside and the scale-equivariance clause is checked on every result
+#   s:offset   data with a common offset 2**20 (offset / spread ~ 1e6): probe points and alignment sources/targets
+#   s:big    a large probe set (20 000 points)
+POW = {"s:1e-6": 2.0 ** -20, "s:1e-9": 2.0 ** -30, "s:1e6": 2.0 ** 20}
+OFFSET = 2.0 ** 20
+BIG_N = 20000
+BASE6 = ["Homogeneous", "Affine", "AlignmentSimilarity", "Rotation", "NonUniformScale", "Translation"]
+NEAR_CLASSES = ["UniformScale", "NonUniformScale", "Translation", "Rotation", "Similarity", "Affine", "Homogeneous"]
+NEAR_LETTERS = ["%s-near%d" % (c, k) for k in (6, 9) for c in NEAR_CLASSES]
+NEAR_INVERSE = "Affine-nearinv9"  # (inverse of the state) x (identity + 1e-9 E): the composition is nearly the identity
+OFFSET_LETTERS = ["AlignmentSimilarity-offset", "AlignmentTranslation-offset"]
+MAG_ROOTS = ["Homogeneous", "Affine", "AlignmentSimilarity", "Translation"]
+S_ROOTS = {
+    "s:near": BASE6 + NEAR_LETTERS,
+    "s:1e-6": MAG_ROOTS,
+    "s:1e-9": MAG_ROOTS,
+    "s:1e6": MAG_ROOTS,
+    "s:offset": ["Affine", "Similarity"] + OFFSET_LETTERS,
+    "s:big": ["Affine", "TransformChain"],
+}
+# operand letters per level (level 0: state is the receiver; level 1: both roles)
+S_OPS = {
+    "s:near": [BASE6 + NEAR_LETTERS + [NEAR_INVERSE], ["UniformScale-near9", "Translation-near9", "Rotation-near9", "Affine-near6", NEAR_INVERSE]],
+    "s:1e-6": [BASE6 + ["AlignmentAffine", "TransformChain"], ["Affine", "AlignmentSimilarity", "Translation"]],
+    "s:1e-9": [BASE6 + ["AlignmentAffine", "TransformChain"], ["Affine", "AlignmentSimilarity", "Translation"]],
+    "s:1e6": [BASE6 + ["AlignmentAffine", "TransformChain"], ["Affine", "AlignmentSimilarity", "Translation"]],
+    "s:offset": [BASE6 + OFFSET_LETTERS + ["UniformScale-near6"], ["Affine", "AlignmentSimilarity-offset", "UniformScale-near6"]],
+    "s:big": [BASE6 + ["TransformChain"]],
+}
+HONEST_TOL = 1e-12
+MTOL = 1e-12  # matrix oracle: |result - product| <= MTOL x (product of the |operand matrices|), elementwise
+EQTOL = 1e-9
+
+
+def _rodrigues(axis, ang):
+    axis = axis / np.linalg.norm(axis)
+    k = np.array([[0, -axis[2], axis[1]], [axis[2], 0, -axis[0]], [-axis[1], axis[0], 0]])
+    return np.eye(3) + np.sin(ang) * k + (1 - np.cos(ang)) * k.dot(k)
+
+
+def near_letter(letter, d, var, seed):
+    """an operand that is nearly, but well above rounding not, the identity: deviation ~1e-6 or ~1e-9."""
+    mt = _m()["mt"]
+    cls, k = letter.split("-near")
+    delta = 10.0 ** -int(k)
+    r = L.rs(seed, "c03-near", letter, d, var)
+
+    def u(*shape):  # magnitudes in [0.5, 1) x delta with random signs
+        return delta * (0.5 + 0.5 * r.rand(*shape)) * np.where(r.rand(*shape) < 0.5, -1.0, 1.0)
+
+    rot = _rot2(float(u())) if d == 2 else _rodrigues(0.3 + r.rand(3), float(u()))
+    if cls == "UniformScale":
+        return mt.UniformScale(1.0 + float(u()), d)
+    if cls == "NonUniformScale":
+        return mt.NonUniformScale(1.0 + u(d))
+    if cls == "Translation":
+        return mt.Translation(u(d))
+    if cls == "Rotation":
+        return mt.Rotation(rot)
+    h = np.eye(d + 1)
+    h[:d, d] = u(d)
+    if cls == "Similarity":
+        h[:d, :d] = (1.0 + float(u())) * rot
+        return mt.Similarity(h)
+    h[:d, :d] = np.eye(d) + u(d, d)
+    if cls == "Affine":
+        return mt.Affine(h)
+    h[d, :d] = u(d)
+    return mt.Homogeneous(h)
+
+
+def rescaled(g, s):
+    """the same transform with every length of its payload multiplied by s (conjugation by the scaling)."""
+    M = _m()
+    mt, PointCloud = M["mt"], M["PointCloud"]
+    if isinstance(g, mt.TransformChain):
+        return mt.TransformChain([rescaled(t, s) for t in g.transforms])
+    if isinstance(g, M["Alignment"]):
+        return type(g)(PointCloud(s * g.source.points), PointCloud(s * g.target.points))
+    if isinstance(g, mt.Translation):
+        return mt.Translation(s * g.translation_component)
+    if isinstance(g, (mt.Rotation, mt.UniformScale, mt.NonUniformScale)):
+        return g
+    h = np.array(g.h_matrix, dtype=float, copy=True)
+    d = h.shape[0] - 1
+    h[:d, d] *= s
+    h[d, :d] /= s
+    return type(g)(h)
+
+
+def conjugated(h, s):
+    h = np.array(h, dtype=float, copy=True)
+    d = h.shape[0] - 1
+    h[:d, d] *= s
+    h[d, :d] /= s
+    return h
+
+
+def offset_letter(letter, d, var, seed):
+    """alignment fitted to data with a large common offset (offset / spread ~ 1e6)."""
+    M = _m()
+    g = generic(letter.split("-")[0], d, var, seed)
+    return type(g)(M["PointCloud"](g.source.points + OFFSET), M["PointCloud"](g.target.points + OFFSET))
+
+
+def scale_world_letter(world, d, letter, var, seed):
+    if "-near" in letter and letter != NEAR_INVERSE:
+        return near_letter(letter, d, var, seed)
+    if letter in OFFSET_LETTERS:
+        return offset_letter(letter, d, var, seed)
+    g = generic(letter, d, var, seed)
+    return rescaled(g, POW[world]) if world in POW else g
 
 
 class Outside(Exception):
@@ -326,7 +451,7 @@ def entries_of(obj, letter, var, twin):
 def _ref_once(model, X):
     x = np.array(X, dtype=float, copy=True)
     mask = np.ones(len(x), dtype=bool)
-    mag = max(1.0, float(np.abs(x).max()))
+    mag = float(np.abs(x).max())  # (no absolute floor: tolerances are relative to the data)
     TCE = _m()["TCE"]
     for e in model:
         if e[0] == "H":
@@ -368,21 +493,24 @@ def ref_eval(model, X):
 # ------------------------------------------------------------------------------------------------
 # class honesty
 # ------------------------------------------------------------------------------------------------
-def dishonest(t):
+def dishonest(t, length=5.5):
     """None, or why the class of a homogeneous-family transform does not describe its matrix."""
     mt = _m()["mt"]
     h = np.asarray(t.h_matrix, dtype=float)
     d = h.shape[0] - 1
-    tol = TOL * max(1.0, float(np.abs(h).max()))
     lin, tr = h[:d, :d], h[:d, d]
+    # structural zeros / ones are exact in every legitimate computation; orthogonality holds to rounding: the
+    # tolerance is relative to the linear part and far below any deviation a scale letter uses (1e-9)
+    tol = HONEST_TOL * float(np.abs(lin).max())
     eye = np.eye(d)
     if isinstance(t, mt.Affine):
-        if not (np.abs(h[d, :d]).max() <= tol and abs(h[d, d] - 1.0) <= tol):
+        # (the projective row has the unit 1 / length: it is judged by what it does to data of that extent)
+        if not (np.abs(h[d, :d]).max() * length <= tol and abs(h[d, d] - 1.0) <= tol):
             return "an Affine whose last row is %r" % (h[d].tolist(),)
     if isinstance(t, mt.Similarity):
         g = lin.T.dot(lin)
         s2 = np.trace(g) / d
-        if np.abs(g - s2 * eye).max() > tol * max(1.0, s2):
+        if np.abs(g - s2 * eye).max() > HONEST_TOL * float(np.abs(g).max()):
             return "a Similarity whose linear part L has L'L = %r" % (g.tolist(),)
     if isinstance(t, mt.Rotation):
         if np.abs(lin.T.dot(lin) - eye).max() > tol:
@@ -398,6 +526,40 @@ def dishonest(t):
     if isinstance(t, mt.NonUniformScale):
         if np.abs(lin - np.diag(np.diag(lin))).max() > tol or np.abs(tr).max() > tol:
             return "a NonUniformScale with matrix %r" % (h.tolist(),)
+    return None
+
+
+def not_equivariant(ts, t1, s):
+    """None, or how the transform built from the payload scaled by s differs from the conjugate of the one
+    built from the unscaled payload (class structure equal, matrices equal block by block, relative)."""
+    mt = _m()["mt"]
+    if type(ts).__name__ != type(t1).__name__:
+        return "result is a %s, on the unscaled payload a %s" % (type(ts).__name__, type(t1).__name__)
+    if isinstance(ts, mt.TransformChain):
+        if len(ts.transforms) != len(t1.transforms):
+            return "chain of %d members, on the unscaled payload %d" % (len(ts.transforms), len(t1.transforms))
+        for i, (a, b) in enumerate(zip(ts.transforms, t1.transforms)):
+            why = not_equivariant(a, b, s)
+            if why:
+                return "member %d: %s" % (i, why)
+        return None
+    if not isinstance(ts, mt.Homogeneous):
+        return None
+    hs, h1 = np.asarray(ts.h_matrix, dtype=float), np.asarray(t1.h_matrix, dtype=float)
+    d = h1.shape[0] - 1
+    want = conjugated(h1, s)
+    extent = 5.5  # the unscaled payload lives in [0.5, 5.5]^d
+    lin = float(np.abs(h1[:d, :d]).max())
+    blocks = [
+        ("linear part", hs[:d, :d], want[:d, :d], lin),
+        ("translation", hs[:d, d], want[:d, d], s * (float(np.abs(h1[:d, d]).max()) + lin * extent)),
+        ("projective row", hs[d, :d], want[d, :d], (float(np.abs(h1[d, :d]).max()) + abs(h1[d, d]) / extent) / s),
+        ("corner", hs[d, d:], want[d, d:], abs(h1[d, d])),
+    ]
+    for name, got, exp, mag in blocks:
+        err = float(np.abs(got - exp).max())
+        if not err <= EQTOL * mag:
+            return "%s is %r, the conjugate of the unscaled result has %r (error %.3g, magnitude %.3g)" % (name, got.tolist(), exp.tolist(), err, mag)
     return None
 
 
@@ -451,6 +613,10 @@ class C03(Check):
             for d in (2, 3):
                 for letter in HOMOG + OPTION_LETTERS:
                     out.append((d, "h", letter, sched))
+        for world, letters in S_ROOTS.items():
+            for d in (2, 3):
+                for letter in letters:
+                    out.append((d, world, letter, "S"))
         for d in (2, 3):
             for letter in DEC_LETTERS:
                 out.append((d, "dec", letter, "-"))
@@ -468,6 +634,8 @@ class C03(Check):
         if blob is None:
             if world == "m":
                 obj = mild(letter, var, self.seed)
+            elif world.startswith("s:"):
+                obj = scale_world_letter(world, d, letter, var, self.seed)
             elif letter in ("Affine-negdet", "Affine-equal-sv", "Affine-tie-largest", "Affine-tie-smallest"):
                 obj = special(letter, d, self.seed)
             elif letter in INT_LETTERS:
@@ -490,6 +658,14 @@ class C03(Check):
             if world == "m":
                 p = L.pwa_domain_points(self.seed, 8, "c03-dom")
                 x = 3.0 + (p - 3.0) * (1.0 / 1.8)  # [1.2,4.8] -> [2,4]: margin for 8 mild maps
+            elif world in POW:
+                x = POW[world] * self.probes("g", d)
+            elif world == "s:offset":
+                x = OFFSET + self.probes("g", d)
+            elif world == "s:big":
+                x = 0.5 + 5.0 * L.rs(self.seed, "c03-big", d).rand(BIG_N, d)
+            elif world == "s:near":
+                x = np.array(self.probes("g", d))
             else:
                 x = L.generic_points(8, d, self.seed, ("c03-probe", d), min_dist=0.5)
             x.setflags(write=False)
@@ -500,9 +676,14 @@ class C03(Check):
         d, world, letter, sched = int(root[0]), root[1], root[2], root[3]
         w = "g" if world in ("dec", "h") else world
         cur, model = self.operand(w, d, letter, 0)
+        extra = {}
+        if world in POW:
+            extra["cur1"] = self.make("g", d, letter, 0)  # the twin program on the unscaled payload
+        if world == "s:near":
+            extra["Xextra"] = [2.0 ** 20 * self.probes(w, d), 2.0 ** -20 * self.probes(w, d)]
         din, dout = dims_of(letter, d)
         held, held_model = self.operand(w, d, letter, HELD_VAR) if world == "h" else (None, None)
-        return {
+        return dict(extra, **{
             "held": held,
             "held_model": held_model,
             "held_ver": 0,
@@ -518,8 +699,9 @@ class C03(Check):
             "n": 0,
             "honest": True,
             "X": self.probes(w, d),
+            "length": float(np.abs(self.probes(w, d)).max()),  # extent of the data of this world
             "old": [],
-        }
+        })
 
     def canon(self, st):
         # Symbolic key: class structure of the live object + the operand maps in application order.  Two
@@ -539,6 +721,21 @@ class C03(Check):
             return []
         if st["world"] == "h":
             return self._held_ops(st, level)
+        if st["world"].startswith("s:"):
+            levels = S_OPS[st["world"]]
+            if level >= len(levels):
+                return []
+            cur_inplace = hasattr(st["cur"], "compose_before_inplace")
+            out = []
+            for role in ("r",) if level == 0 else ("r", "a"):
+                for letter in levels[level]:
+                    if letter == NEAR_INVERSE and (role == "a" or not all(e[0] == "H" and e[1].dtype.kind == "f" and np.abs(e[1][-1, :-1]).max() == 0 for e in st["model"])):
+                        continue
+                    for m in METHODS:
+                        if m in ("cbi", "cai") and role == "r" and not cur_inplace:
+                            continue
+                        out.append((m, letter, role))
+            return out
         sched = SCHEDULES[st["sched"]]
         if level >= len(sched):
             return []
@@ -580,13 +777,17 @@ class C03(Check):
 
     # ------------------------------------------------------------------ step
     def apply(self, st, op, verify=True):
+        self._length = st["length"]
         if op[0] in ("hc", "hr", "hx"):
             return self._apply_held(st, op, verify)
         if op[0] == "rf":
             return self._apply_refused(st, op, verify)
         m, letter, role = op
         d, world = st["d"], st["world"]
-        operand, ent = self.operand(world, d, letter, st["n"] + 1)
+        if letter == NEAR_INVERSE:
+            operand, ent = self._near_inverse(st, m)
+        else:
+            operand, ent = self.operand(world, d, letter, st["n"] + 1)
         odin, odout = dims_of(letter, d)
         cur = st["cur"]
         if role == "r":
@@ -597,8 +798,35 @@ class C03(Check):
         cur_first = recv_first == (role == "r")
         new_din, new_dout = (st["din"], odout) if cur_first else (odin, st["dout"])
         where = "%s(%s)" % (MNAME[m], "state-is-receiver" if role == "r" else "state-is-argument")
-        fails, accepted, new_cur, new_model, obs_r, obs_a = self._call(st, m, recv, arg, recv_model, arg_model, where, verify, st["honest"], st["n"] == 0)
+        fails, accepted, new_cur, new_model, obs_r, obs_a = self._call(st, m, recv, arg, recv_model, arg_model, where, verify, st["honest"], st["n"] == 0 and not world.startswith("s:"))
         pair = "%s.%s(%s)" % (type(recv).__name__, MNAME[m], type(arg).__name__)
+        if world in POW:
+            # scale equivariance: the same call on the unscaled twins gives the same class and the conjugated matrix
+            op1 = self.make("g", d, letter, st["n"] + 1)
+            recv1, arg1 = (st["cur1"], op1) if role == "r" else (op1, st["cur1"])
+            try:
+                res1 = getattr(recv1, MNAME[m])(arg1)
+                acc1 = True
+            except ValueError:
+                res1, acc1 = None, False
+            if m in ("cbi", "cai"):
+                res1 = recv1
+            if verify:
+                self.note("equivariance:%s" % world)
+                if acc1 != accepted:
+                    fails.append(Failure(where, "scale-equivariance", "%s is %s on the payload scaled by %g and %s on the unscaled payload" % (pair, "accepted" if accepted else "refused", POW[world], "accepted" if acc1 else "refused")))
+                elif accepted:
+                    why = not_equivariant(new_cur, res1, POW[world])
+                    if why:
+                        fails.append(Failure(where, "scale-equivariance", "%s on the payload scaled by %g: %s" % (pair, POW[world], why)))
+            if acc1:
+                st["cur1"] = res1
+        if verify and world.startswith("s:"):
+            self.note("scale-world:%s" % world)
+            if "-near" in letter or letter in OFFSET_LETTERS:
+                self.note("operand:%s" % letter)
+            if len(st["X"]) == BIG_N:
+                self.note("map:big-probe-set")
         if verify and not fails:
             # objects handed to earlier non-in-place calls must still be what they were
             for tag, obj, obs in st["old"]:
@@ -626,7 +854,7 @@ class C03(Check):
             if m in ("cbi", "cai") and role == "r" and st["n"] == 1 and st["letter"] in EXTRA_LETTERS:
                 self.note("inplace-receiver:%s" % st["letter"])
         mt = _m()["mt"]
-        st["honest"] = (dishonest(new_cur) is None) if isinstance(new_cur, mt.Homogeneous) else True
+        st["honest"] = (dishonest(new_cur, self._length) is None) if isinstance(new_cur, mt.Homogeneous) else True
         if verify and not st["honest"]:
             self.note("state:dishonest-after-%s" % ("inplace" if m in ("cbi", "cai") else "composing-a-dishonest-operand"))
         return fails
@@ -646,6 +874,7 @@ class C03(Check):
             if both_homog:
                 det_r = np.linalg.det(np.asarray(recv.h_matrix)[:-1, :-1])
                 det_a = np.linalg.det(np.asarray(arg.h_matrix)[:-1, :-1])
+                conds = (np.linalg.cond(np.asarray(recv.h_matrix, dtype=float)), np.linalg.cond(np.asarray(arg.h_matrix, dtype=float)))
 
         if m in ("cb", "ca"):
             res = getattr(recv, MNAME[m])(arg)
@@ -661,8 +890,9 @@ class C03(Check):
                     fails.append(Failure(where, "argument-changed", "%s changed its argument: %s" % (pair, df)))
                 self.note("operands:unchanged-checked")
                 if both_homog:
-                    fails.extend(self._closure(res, where, pair, operands_honest, det_r, det_a))
-                fails.extend(self._map(res, new_model, st["X"], where, pair, "composition-law"))
+                    fails.extend(self._closure(res, where, pair, operands_honest, det_r, det_a, conds))
+                for X in [st["X"]] + st.get("Xextra", []):
+                    fails.extend(self._map(res, new_model, X, where, pair, "composition-law"))
                 if not fails and isinstance(res, mt.Affine) and with_decompose:
                     fails.extend(self._decompose(res, where, "result of " + pair))
             return fails, True, res, new_model, obs_r, obs_a
@@ -692,11 +922,12 @@ class C03(Check):
                     Failure(where, "inplace-acceptance", "%s %s although isinstance(argument, receiver.composes_inplace_with) is %s" % (pair, "was accepted" if accepted else "raised ValueError", expect_accept))
                 )
             if accepted:
-                fails.extend(self._map(recv, new_model, st["X"], where, pair, "inplace-same-map"))
+                for X in [st["X"]] + st.get("Xextra", []):
+                    fails.extend(self._map(recv, new_model, X, where, pair, "inplace-same-map"))
                 if both_homog:
                     # the receiver keeps its class, so what it accepts must keep its matrix inside that class
                     if operands_honest:
-                        why = dishonest(recv)
+                        why = dishonest(recv, self._length)
                         self.note("inplace-honest:%s" % type(recv).__name__)
                         if why:
                             fails.append(Failure(where, "class-honesty-inplace", "%s was accepted and left %s" % (pair, why)))
@@ -707,6 +938,23 @@ class C03(Check):
                 if df:
                     fails.append(Failure(where, "receiver-changed-by-refused-inplace", "%s raised ValueError but changed its receiver: %s" % (pair, df)))
         return fails, accepted, recv, new_model, obs_r, obs_a
+
+    def _near_inverse(self, st, m):
+        """an Affine that nearly undoes the state: the composition is identity + ~1e-9 (nearly equal operands)."""
+        mt = _m()["mt"]
+        d = st["d"]
+        prod = np.eye(d + 1)
+        for e in st["model"]:
+            prod = e[1].dot(prod)
+        r = L.rs(self.seed, "c03-nearinv", d, st["n"], tuple(e[3] for e in st["model"]))
+        pert = np.eye(d + 1)
+        pert[:d, :] += 1e-9 * (0.5 + 0.5 * r.rand(d, d + 1)) * np.where(r.rand(d, d + 1) < 0.5, -1.0, 1.0)
+        inv = np.linalg.inv(prod)
+        h = pert.dot(inv) if m in ("cb", "cbi") else inv.dot(pert)  # (role r: 'before' applies the operand second)
+        h[d, :] = 0.0
+        h[d, d] = 1.0
+        obj = mt.Affine(h)
+        return obj, [("H", np.array(obj.h_matrix, dtype=float, copy=True), NEAR_INVERSE, (NEAR_INVERSE, st["n"] + 1, 0) + tuple(e[3] for e in st["model"]))]
 
     # ------------------------------------------------------------------ refused calls
     def _non_transform(self, kind, d):
@@ -821,7 +1069,7 @@ class C03(Check):
             st["held_model"] = [("H", np.array(held.h_matrix, dtype=float, copy=True), letter, (letter, HELD_VAR, 0) + st["hist"])]
             if verify:
                 self.note("held:reparam-%s" % kind)
-                why = dishonest(held)
+                why = dishonest(held, self._length)
                 if why:
                     fails.append(Failure(where, "class-honesty-after-reparametrisation", "%s.%s left %s" % (type(held).__name__, kind, why)))
                 fails.extend(self._map(held, st["held_model"], st["X"], where, type(held).__name__, "apply-after-reparametrisation"))
@@ -939,9 +1187,39 @@ class C03(Check):
         if not err <= TOL * mag:
             i = int(np.argmax(np.abs(got - ref).max(axis=1)))
             return [Failure(where, clause, "%s: point %r is mapped to %r, sequential application of the %d operand maps gives %r (error %.3g)" % (pair, Xu[i].tolist(), got[i].tolist(), len(model), ref[i].tolist(), err))]
+        return self._matrix(t, model, where, pair, clause)
+
+    def _matrix(self, t, model, where, pair, clause):
+        """Matrix form of the law for a homogeneous-family composite of homogeneous-family operands: its matrix is
+        the float64 product of the operand matrices, elementwise within MTOL x (product of the |operand matrices|)
+        - the rounding-error bound of a matrix product, so the comparison is relative to every operand's own
+        magnitude and to its deviation from the identity (a point-wise comparison hides a deviation of 1e-9 next
+        to coordinates of order 1).  Projective results are compared up to their free scalar."""
+        mt = _m()["mt"]
+        if not isinstance(t, mt.Homogeneous) or not all(e[0] == "H" for e in model):
+            return []
+        exp = np.asarray(model[0][1], dtype=float)
+        bound = np.abs(exp)
+        for e in model[1:]:
+            h = np.asarray(e[1], dtype=float)
+            exp = h.dot(exp)
+            bound = np.abs(h).dot(bound)
+        got = np.asarray(t.h_matrix, dtype=float)
+        if got.shape != exp.shape:
+            return [Failure(where, clause, "%s: matrix of shape %s, product of the operand matrices has %s" % (pair, got.shape, exp.shape))]
+        if not isinstance(t, mt.Affine):
+            c = float(np.vdot(exp, got) / np.vdot(exp, exp))
+            exp, bound = c * exp, abs(c) * bound
+        err = np.abs(got - exp)
+        with np.errstate(all="ignore"):
+            rel = float(np.max(np.where(bound > 0, err / np.where(bound > 0, bound, 1.0), np.where(err > 0, np.inf, 0.0))))
+        self.note("materr:%s" % _bucket(rel))
+        if not rel <= MTOL:
+            i, j = np.unravel_index(int(np.argmax(np.where(bound > 0, err / np.where(bound > 0, bound, 1.0), np.where(err > 0, np.inf, 0.0)))), err.shape)
+            return [Failure(where, clause, "%s: entry (%d,%d) of the matrix is %r, the product of the %d operand matrices has %r (difference %.3g, %.3g relative to the product of the absolute matrices)" % (pair, i, j, float(got[i, j]), len(model), float(exp[i, j]), float(err[i, j]), rel))]
         return []
 
-    def _closure(self, res, where, pair, operands_honest, det_r, det_a):
+    def _closure(self, res, where, pair, operands_honest, det_r, det_a, conds):
         M = _m()
         mt = M["mt"]
         fails = []
@@ -950,13 +1228,14 @@ class C03(Check):
         if isinstance(res, M["Alignment"]) or hasattr(res, "source") or hasattr(res, "target"):
             fails.append(Failure(where, "result-is-an-alignment", "%s returned a %s (has source/target)" % (pair, type(res).__name__)))
         h = np.asarray(res.h_matrix, dtype=float)
-        if h.shape[0] != h.shape[1] or not np.all(np.isfinite(h)) or np.linalg.cond(h) > 1e8 or not res.has_true_inverse:
+        # invertible, relative to the operands: cond(AB) <= cond(A) cond(B) (no absolute conditioning threshold)
+        if h.shape[0] != h.shape[1] or not np.all(np.isfinite(h)) or not np.linalg.cond(h) <= 10.0 * conds[0] * conds[1] or not res.has_true_inverse:
             fails.append(Failure(where, "invertible", "%s returned a %s with matrix %r" % (pair, type(res).__name__, h.tolist())))
             return fails
         if not operands_honest:
             self.note("honesty:not-demanded-dishonest-operand")
             return fails
-        why = dishonest(res)
+        why = dishonest(res, self._length)
         self.note("honest:%s" % type(res).__name__)
         if why:
             fails.append(Failure(where, "class-honesty", "%s returned %s" % (pair, why)))
@@ -1002,8 +1281,9 @@ class C03(Check):
         mt = _m()["mt"]
         fails = []
         cur = st["cur"]
+        self._length = st["length"]
         if isinstance(cur, mt.Homogeneous):
-            why = dishonest(cur)
+            why = dishonest(cur, self._length)
             if why:
                 raise AssertionError("operand letter %r is not honest: %s" % (root, why))
         # the letter itself agrees with its model on the probe points (sanity of the harness, exact law n=1)
@@ -1053,6 +1333,8 @@ class C03(Check):
             "decompose:4-parts-negative-determinant",
             "decompose:1-parts",
         ]
+        need += ["map:big-probe-set"] + ["scale-world:%s" % w for w in S_ROOTS] + ["equivariance:%s" % w for w in POW]
+        need += ["operand:%s" % l for l in NEAR_LETTERS + OFFSET_LETTERS + [NEAR_INVERSE]]
         need += ["inplace-receiver:%s" % l for l in OPTION_LETTERS] + ["operand:%s" % l for l in EXTRA_LETTERS]
         need += ["rotation:improper-operand", "refused:dim:ValueError", "refused:obj:ValueError", "held:refused-call", "held:compose-after-refused-call"]
         need += [
@@ -1088,6 +1370,8 @@ class C03(Check):
             "methods": len(METHODS),
             "schedules": {s: SCHEDULES[s] for s in self._scheds()},
             "held_operand_letters": len(HOMOG + OPTION_LETTERS),
+            "scale_worlds": {w: {"roots_per_dim": len(S_ROOTS[w]), "operand_letters_per_level": [len(l) for l in S_OPS[w]]} for w in S_ROOTS},
+            "near_identity_letters": NEAR_LETTERS + [NEAR_INVERSE],
             "option_letters": OPTION_LETTERS,
             "orientation_reversing_letters": REFLECT_LETTERS,
             "refused_call_letters": {"other_dimensionality_level0": len(HOMOG), "other_dimensionality_later": list(REFUSE_DIM_REDUCED), "non_transform_inplace": list(NON_TRANSFORMS)},
@@ -1105,6 +1389,8 @@ class C03(Check):
             "class honesty is demanded of the result of a non-in-place call and of the receiver after an ACCEPTED in-place call, whenever both operands are homogeneous and themselves honest (the [interp] of DESIGN.md that excused the in-place variants rested on Translation/Similarity swallowing any Affine in place; that was repaired as D28/D29, every composes_inplace_with is now closed under composition)",
             "refused-call letters: an operand of the other dimensionality is enumerated only where both sides are homogeneous-family transforms (native composition) and a non-transform operand only for the in-place variants; LEFT OUT because the unchanged tree does not refuse them (reported, not loosened): compose_before/compose_after with a non-transform (e.g. Affine.compose_before(None) returns TransformChain([affine, None])) and any mixed-dimensionality composition that goes through the TransformChain fallback or has a TransformChain receiver (TransformChain([affine2d]).compose_before[_inplace](Translation3d) is accepted; it only fails when applied)",
             "option letters: AlignmentSimilarity(rotation=False), AlignmentSimilarity(allow_mirror=True) and AlignmentRotation(allow_mirror=True) (mirror letters fitted to a reflected target, det < 0), TPS kernel R2LogRRBF; copy= / skip_checks= / min_singular_val are not enumerated here (no effect on the map; min_singular_val belongs to C08)",
+            "scale worlds: homogeneous-family letters (and chains of them) only; payload magnitudes 2**-20, 2**-30, 2**20 (exact scalings standing for 1e-6, 1e-9, 1e6), common offset 2**20 on probe points and on the sources/targets of AlignmentSimilarity / AlignmentTranslation, near-identity operands with deviation ~1e-6 and ~1e-9, a nearly-inverse Affine (result = identity + ~1e-9), 20 000 probe points; the last row of an Affine is judged relative to the extent of the data (AlignmentAffine leaves rounding noise ~1e-16 / length there, harmless at every scale); LEFT OUT: TPS (documented absolute floor min_singular_val=1e-4 of its system matrix) and PWA at other magnitudes, AlignmentAffine on offset data (its normal equations are ill-conditioned at offset/spread 1e6: not a well-conditioned configuration), decompose() of near-identity or nearly-tied matrices (Scale()'s documented allclose(rtol 1e-5) turns singular values closer than that into one UniformScale)",
+            "tolerances are relative: points to %g x the largest coordinate met while evaluating the reference (no absolute floor), matrices to %g x the product of the absolute operand matrices elementwise, class honesty to %g x the linear part, scale equivariance to %g per block" % (TOL, MTOL, HONEST_TOL, EQTOL),
             "held-operand world: the reused operand is one of the 12 homogeneous-family classes or an alignment option letter (all its compositions with the state, its own class and Affine are native, so no chain aliases it); its re-parametrisations are set_target (two targets), from_vector_inplace (one donor vector) and compose_*_inplace; the reference reads its h_matrix after each re-parametrisation; programs of 3 calls, the middle one a re-parametrisation in the quick tier",
             "depth bound on the number of compose calls; levels 2 and 3 of the thorough tier use the reduced 8-letter operand alphabet (level 3 with the state as receiver only)",
         ]
